@@ -19,6 +19,9 @@ def main():
     import check_sme
     if a.prop in check_sme.ALL_PROPS:
         check_sme.run_check(a.prop, a.tier)
+    elif a.prop in ("C12", "C13"):
+        import check_ws
+        check_ws.run_check(a.prop, a.tier)
     elif a.prop == "C14":
         import check_timer
         check_timer.run_check(a.prop, a.tier)
